@@ -697,6 +697,11 @@ def _line(model, rep):
                 return NewPts(ix[1].sel, "verts")
             raise Unsupported(f"p index {ix!r}")
 
+        def skv_getattr(self, name):
+            if name == "shape":
+                return (1, NP)
+            raise Unsupported("p." + name)
+
     class MidIdx(ARange):
         pass
 
@@ -728,8 +733,10 @@ def _line(model, rep):
 
     def hook(interp, name, args, kwargs, node):
         if name == "numpy.max" and isinstance(args[0], T):
-            # validated meshes have no unused vertices: max(t) + 1 points
-            return NP - 1
+            # the largest vertex number in use: NOT the number of stored
+            # points (trailing unused points are an admissible state, cf.
+            # remove_unused_nodes)
+            return Poly.sym("maxt")
         if name == "numpy.setdiff1d":
             a, b = args
             if isinstance(a, ARange) and a.lo == Poly() and \
